@@ -1488,6 +1488,19 @@ func (m *machine) convert(fr *frame, x *ssa.Convert) AV {
 		if s, isS := a.(avStr); isS {
 			return s
 		}
+		// string(b) of a symbolic byte slice is a symbolic string (it can be an atom of an equality-only group)
+		if tb, isB := x.Type().Underlying().(*types.Basic); isB && tb.Info()&types.IsString != 0 {
+			switch y := a.(type) {
+			case avOpaque:
+				if strings.HasPrefix(y.why, "slice ") {
+					return avStr{sym: "string(" + strings.TrimPrefix(y.why, "slice ") + ")"}
+				}
+			case avSlice:
+				if y.sym != "" {
+					return avStr{sym: "string(" + y.sym + ")"}
+				}
+			}
+		}
 		return avOpaque{"convert " + avString(a)}
 	}
 	if i.atom == "" {
